@@ -3,6 +3,7 @@ package cli
 import (
 	"github.com/Vedant9500/WTF/internal/database"
 	"github.com/spf13/cobra"
+	"strings"
 )
 
 // ---- C08 (kernel) / C09 (notebook): the read-modify-write of the personal notebook ----
@@ -184,7 +185,7 @@ func VerifHarness_C08_SavePipelineHandler() {
 		desc = "my words"
 		set("description", desc)
 	}
-	command := []string{"sort", "cat f | wc -l", "grep x f | sort | head"}[verifIntRange("command", 0, 2)]
+	command := []string{"sort", "cat f | wc -l", "grep x f | sort | head", "awk x f | sed y", "find . | sed s"}[verifIntRange("command", 0, 4)]
 	savePipelineCmd.Run(savePipelineCmd, []string{"nm", command})
 	db, err := database.LoadDatabase(path)
 	verifAssert(err == nil, "C08: the notebook loads after a successful save")
@@ -194,6 +195,27 @@ func VerifHarness_C08_SavePipelineHandler() {
 	verifAssert(len(db.Commands) == 1, "C08: a new command string is appended")
 	if len(db.Commands) == 1 {
 		c08HandlerCheck(db.Commands[0], command, desc, true, withCategory)
+		// keywords: the documented automatic ones for the tools named in the command, once each
+		want := []string{"pipeline", "workflow"}
+		if strings.Contains(command, "grep") {
+			want = append(want, "search", "filter")
+		}
+		if strings.Contains(command, "awk") || strings.Contains(command, "sed") {
+			want = append(want, "text", "processing")
+		}
+		if strings.Contains(command, "sort") {
+			want = append(want, "sort", "order")
+		}
+		if strings.Contains(command, "find") {
+			want = append(want, "find", "search")
+		}
+		got := db.Commands[0].Keywords
+		verifAssert(len(got) == len(want), "C08: the stored entry holds exactly the given keywords (save-pipeline: the automatic ones)")
+		if len(got) == len(want) {
+			for k := range want {
+				verifAssert(got[k] == want[k], "C08: the stored entry holds exactly the given keywords (save-pipeline: the automatic ones)")
+			}
+		}
 	}
 	verifReach("saved")
 }
